@@ -2,6 +2,8 @@ import TracklibVerif.Lemmas.Seq
 import TracklibVerif.Lemmas.SeqSearch
 import TracklibVerif.Lemmas.SeqFeat
 import TracklibVerif.Lemmas.SeqRadix
+import TracklibVerif.Lemmas.SeqSession
+import TracklibVerif.Lemmas.SeqSlice
 /-! # C04 — sequence operations on a track select exactly the designated observations
 
 Property theorems only (helper lemmas: `Lemmas/Seq.lean`, `Lemmas/SeqSearch.lean`). The model is
@@ -246,6 +248,14 @@ theorem insert_carries (tr : Track) (o : Obs) (r : Track)
     obtain ⟨j, hj⟩ := List.mem_iff_getElem?.mp hm
     exact ⟨j, hj, fun nm => readAF_congr key.1 (hi.trans hj.symm) nm⟩
 
+/-- every table the public interface builds is well-formed (distinct names, the column of a name is its rank): the
+empty table is, `createAnalyticalFeature` and `removeAnalyticalFeature` keep it so, and every operator of this
+file copies the table of its source. This is the hypothesis of `concat_carries` and of `Good`. -/
+theorem table_wellformed (tr : Track) (h : WF tr.table) (nm : String) :
+    WF ([] : Table) ∧ (∀ vals r, createAF tr nm vals = some r → WF r.table) ∧
+      (∀ r, removeAF tr nm = some r → WF r.table) :=
+  ⟨wf_nil, fun vals r hc => createAF_wf tr nm vals r h hc, fun r hr => removeAF_wf tr nm r h hr⟩
+
 /-- `t1 + t2` when the two tracks list the same names, both tables being well-formed (distinct names, the column
 of a name is its rank: what `createAnalyticalFeature` / `removeAnalyticalFeature` build, `createAF_wf`,
 `removeAF_wf`): the sum has that table and EVERY observation — those of `t2` too — reads under every name what
@@ -280,6 +290,201 @@ theorem concat_names_differ (t1 t2 : Track) (hn : t1.names ≠ t2.names) :
   refine ⟨by simp [Track.names, ht], ?_⟩
   intro nm i
   simp [readAF, ht, colOf]
+
+/-! ## operators applied in sequence
+
+`Good own tr`: the table of `tr` is well-formed and every observation of `tr` reads, under every name `tr`
+lists, ITS OWN value (`own tag name`). Every operation of the statement keeps every track of the pool good —
+the result of an operator as well as its operands — so the property "each observation reads its own feature
+values" holds after any sequence of operators, the result of one being an operand of the next. -/
+
+theorem good_of_carries {own : Nat → String → Int} {r s : Track} (hs : Good own s) (hc : Carries r s) :
+    Good own r :=
+  good_of_sub hs hc.1 (fun o ho => by
+    obtain ⟨i, hi⟩ := List.mem_iff_getElem?.mp ho
+    obtain ⟨j, hj, _⟩ := hc.2 i o hi
+    exact List.mem_of_getElem? hj)
+
+/-- the operations the invariant speaks of: a new observation must hold its own values (laid out by `mkObs` as
+the track's table says); the creation / removal of a feature changes what "own value" means and is excluded. -/
+def OpOk (own : Nat → String → Int) : Op → Prop
+  | .insert _ tag _ vals => ∀ nm v, lookVal vals nm = some v → v = own tag nm
+  | .insertAt _ _ tag _ vals => ∀ nm v, lookVal vals nm = some v → v = own tag nm
+  | .addObs _ tag _ vals => ∀ nm v, lookVal vals nm = some v → v = own tag nm
+  | .create .. => False
+  | .delete .. => False
+  | _ => True
+
+theorem newTrack_good (G : Track → Prop) (pool : List Track) (r : Option Track) (err : String)
+    (hg : ∀ t ∈ pool, G t) (hr : ∀ r', r = some r' → G r') : ∀ t ∈ (newTrack pool r err).1, G t := by
+  intro t ht
+  unfold newTrack at ht
+  split at ht
+  · rename_i r'
+    rcases List.mem_append.mp ht with h | h
+    · exact hg t h
+    · have : t = r' := by simpa using h
+      subst this; exact hr t rfl
+  · exact hg t ht
+
+theorem inPlace_good (G : Track → Prop) (pool : List Track) (k : Nat) (r : Track) (out : Out)
+    (hg : ∀ t ∈ pool, G t) (hr : G r) : ∀ t ∈ (inPlace pool k r out).1, G t := by
+  intro t ht
+  rcases List.mem_or_eq_of_mem_set (show t ∈ pool.set k r from ht) with h | h
+  · exact hg t h
+  · subst h; exact hr
+
+theorem applyOp_good (own : Nat → String → Int) (pool : List Track) (op : Op) (hok : OpOk own op)
+    (hg : ∀ t ∈ pool, Good own t) : ∀ t ∈ (applyOp pool op).1, Good own t := by
+  have hat : ∀ (k : Nat) (tr : Track), pool[k]? = some tr → Good own tr :=
+    fun k tr h => hg tr (List.mem_of_getElem? h)
+  have hrm : ∀ (tr : Track) (p : List Obs), Good own tr → (∀ o ∈ p, o ∈ tr.pts) → Good own ⟨p, tr.table⟩ :=
+    fun tr p h hm => good_of_sub h rfl hm
+  cases op with
+  | extract k a b =>
+    simp only [applyOp]; split
+    · exact hg
+    · rename_i tr htr
+      exact newTrack_good _ _ _ _ hg (fun r' h => good_of_carries (hat k tr htr) (extract_carries tr a b r' h))
+  | span k t1 t2 =>
+    simp only [applyOp]; split
+    · exact hg
+    · rename_i tr htr
+      exact newTrack_good _ _ _ _ hg (fun r' h => by
+        cases h; exact good_of_carries (hat k tr htr) (extractSpanTime_carries tr t1 t2))
+  | spanTrack k m =>
+    simp only [applyOp]; split
+    · rename_i tr other htr _
+      exact newTrack_good _ _ _ _ hg (fun r' h => good_of_carries (hat k tr htr) (extractSpanTrack_carries tr other r' h))
+    · exact hg
+  | add k m =>
+    simp only [applyOp]; split
+    · rename_i t1 t2 h1 h2
+      exact newTrack_good _ _ _ _ hg (fun r' h => by cases h; exact good_concat (hat k t1 h1) (hat m t2 h2))
+    · exact hg
+  | step k n =>
+    simp only [applyOp]; split
+    · exact hg
+    · rename_i tr htr
+      exact newTrack_good _ _ _ _ hg (fun r' h => good_of_carries (hat k tr htr) (decimateStep_carries tr n r' h))
+  | pattern k pat =>
+    simp only [applyOp]; split
+    · exact hg
+    · rename_i tr htr
+      exact newTrack_good _ _ _ _ hg (fun r' h => good_of_carries (hat k tr htr) (decimatePattern_carries tr pat r' h))
+  | gt k n =>
+    simp only [applyOp]; split
+    · exact hg
+    · rename_i tr htr
+      exact newTrack_good _ _ _ _ hg (fun r' h => by cases h; exact good_of_carries (hat k tr htr) (dropFirst_carries tr n))
+  | lt k n =>
+    simp only [applyOp]; split
+    · exact hg
+    · rename_i tr htr
+      exact newTrack_good _ _ _ _ hg (fun r' h => by cases h; exact good_of_carries (hat k tr htr) (dropLast_carries tr n))
+  | slice k a b c =>
+    simp only [applyOp]; split
+    · exact hg
+    · rename_i tr htr
+      exact newTrack_good _ _ _ _ hg (fun r' h => good_of_carries (hat k tr htr) (getitemSlice_carries tr a b c r' h))
+  | sort k =>
+    simp only [applyOp]; split
+    · exact hg
+    · rename_i tr htr
+      split
+      · rename_i r hr
+        exact inPlace_good _ _ _ _ _ hg (good_of_carries (hat k tr htr) (sort_carries tr _ r hr))
+      · exact hg
+  | insert k tag time vals =>
+    simp only [applyOp]; split
+    · exact hg
+    · rename_i tr htr
+      split
+      · exact hg
+      · rename_i o ho
+        have hro := mkObs_reads (own := own) tr (hat k tr htr).1 tag time vals o ho hok
+        split
+        · rename_i r hr
+          have hc := insert_carries tr o r (Or.inl hr)
+          unfold insertChrono at hr
+          split at hr
+          · cases hr
+            exact inPlace_good _ _ _ _ _ hg (good_insert (hat k tr htr) hro.2 rfl (fun x hx => pyInsert_mem tr.pts _ o x hx))
+          · cases hr
+        · exact hg
+  | insertAt k i tag time vals =>
+    simp only [applyOp]; split
+    · exact hg
+    · rename_i tr htr
+      split
+      · exact hg
+      · rename_i o ho
+        have hro := mkObs_reads (own := own) tr (hat k tr htr).1 tag time vals o ho hok
+        exact inPlace_good _ _ _ _ _ hg (good_insert (hat k tr htr) hro.2 rfl (fun x hx => pyInsert_mem tr.pts i o x hx))
+  | addObs k tag time vals =>
+    simp only [applyOp]; split
+    · exact hg
+    · rename_i tr htr
+      split
+      · exact hg
+      · rename_i o ho
+        have hro := mkObs_reads (own := own) tr (hat k tr htr).1 tag time vals o ho hok
+        refine inPlace_good _ _ _ _ _ hg (good_insert (hat k tr htr) hro.2 rfl (fun x hx => ?_))
+        rcases List.mem_append.mp hx with hx | hx
+        · exact Or.inr hx
+        · exact Or.inl (by simpa using hx)
+  | remove k idx =>
+    simp only [applyOp]; split
+    · exact hg
+    · rename_i tr htr
+      exact inPlace_good _ _ _ _ _ hg (hrm tr _ (hat k tr htr) (removeByIdx_subset tr.pts idx))
+  | removeObs k i =>
+    simp only [applyOp]; split
+    · exact hg
+    · rename_i tr htr
+      exact inPlace_good _ _ _ _ _ hg (hrm tr _ (hat k tr htr) (removeByIdx_subset tr.pts [i]))
+  | removeFirst k =>
+    simp only [applyOp]; split
+    · exact hg
+    · rename_i tr htr
+      exact inPlace_good _ _ _ _ _ hg (hrm tr _ (hat k tr htr) (removeByIdx_subset tr.pts [0]))
+  | removeLast k =>
+    simp only [applyOp]; split
+    · exact hg
+    · rename_i tr htr
+      exact inPlace_good _ _ _ _ _ hg (hrm tr _ (hat k tr htr) (removeByIdx_subset tr.pts [_]))
+  | pop k i =>
+    simp only [applyOp]; split
+    · exact hg
+    · rename_i tr htr
+      refine inPlace_good _ _ _ _ _ hg (hrm tr _ (hat k tr htr) ?_)
+      intro o ho
+      unfold popObs at ho
+      split at ho
+      · exact ho
+      · exact removeByIdx_subset tr.pts [i] o ho
+  | get k i => simp only [applyOp]; split <;> exact hg
+  | read k nm i => simp only [applyOp]; split <;> exact hg
+  | column k nm => simp only [applyOp]; split <;> exact hg
+  | create k nm vals => exact absurd hok id
+  | delete k nm => exact absurd hok id
+
+/-- operators applied in sequence: if every track of the pool is good at the start, every track of the pool —
+operands and results — is good after the whole sequence. -/
+theorem finalPool_good (own : Nat → String → Int) : ∀ (ops : List Op) (pool : List Track),
+    (∀ op ∈ ops, OpOk own op) → (∀ t ∈ pool, Good own t) → ∀ t ∈ finalPool pool ops, Good own t
+  | [], pool, _, hg => by simpa [finalPool] using hg
+  | op :: rest, pool, hok, hg => by
+    have h1 := applyOp_good own pool op (hok op (by simp)) hg
+    have := finalPool_good own rest (applyOp pool op).1 (fun o ho => hok o (List.mem_cons_of_mem _ ho)) h1
+    simpa [finalPool] using this
+
+/-- a good track read through `readAF` (`track[name, i]`): the value is the observation's own -/
+theorem good_readAF (own : Nat → String → Int) (tr : Track) (h : Good own tr) (i : Nat) (o : Obs)
+    (hi : tr.pts[i]? = some o) (nm : String) (hnm : nm ∈ tr.names) :
+    readAF tr nm (i : Int) = .val (own o.tag nm) := by
+  rw [readAF_of_get hi nm]
+  exact h.2 o (List.mem_of_getElem? hi) nm hnm
 
 /-! ## the other entry points of the statement -/
 
@@ -339,6 +544,52 @@ theorem getitemInt_spec (tr : Track) (i : Nat) (hi : i < tr.pts.length) :
     have e : ((tr.pts.length : Int) + -((i : Int) + 1)).toNat = tr.pts.length - 1 - i := by omega
     simp only [getitemInt, pyGet, h1, if_false, h2, if_true, e]
     exact List.getElem?_eq_getElem (by omega)
+
+/-- `track[a:b:c]` with a step `c ≥ 1`: with `s`, `e` the bounds `a`, `b` brought into `0..size` as Python does
+(a negative bound counts from the end, an absent one is `0` / `size`, everything is clamped), the result holds
+exactly the observations at the positions `s, s+c, s+2c, … < e`, in order — it is `(track[a:b]) % c` — with the
+feature table of the source. (A negative step is modelled and compared with the code, not covered here.) -/
+theorem getitemSlice_spec (tr : Track) (a b : Option Int) (c : Nat) (hc : 1 ≤ c) :
+    ∃ s e : Nat, s ≤ tr.pts.length ∧ e ≤ tr.pts.length ∧
+      sliceBounds tr.pts.length a b (c : Int) = ((s : Int), (e : Int)) ∧
+      (∀ x : Nat, a = some (x : Int) → s = min x tr.pts.length) ∧ (a = none → s = 0) ∧
+      (∀ x : Nat, b = some (x : Int) → e = min x tr.pts.length) ∧ (b = none → e = tr.pts.length) ∧
+      getitemSlice tr a b (some (c : Int)) = some ⟨stepAux c 0 ((tr.pts.take e).drop s), tr.table⟩ ∧
+      ∀ i : Nat, (stepAux c 0 ((tr.pts.take e).drop s))[i]? = if s + i * c < e then tr.pts[s + i * c]? else none := by
+  obtain ⟨s, e, hb, hs, he, h1, h2, h3, h4⟩ := sliceBounds_pos tr.pts.length a b (c : Int) (by omega)
+  obtain ⟨s', e', hb', _, _, hp⟩ := pySlice_pos tr.pts a b c hc
+  have hse : s' = s ∧ e' = e := by
+    rw [hb] at hb'
+    simp only [Prod.mk.injEq] at hb'
+    omega
+  rw [hse.1, hse.2] at hp
+  refine ⟨s, e, hs, he, hb, h1, h2, h3, h4, ?_, ?_⟩
+  · simp only [getitemSlice, hp, Option.map_some, transmitAF]
+  · intro i
+    rw [stepAux_getElem? c hc, List.getElem?_drop, List.getElem?_take, Nat.zero_add]
+
+/-- `track[a:b]` with `0 ≤ a`, `0 ≤ b` (no step): the observations at the positions `a ≤ j < b` -/
+theorem getitemSlice_simple (tr : Track) (a b : Nat) :
+    getitemSlice tr (some (a : Int)) (some (b : Int)) none = some ⟨(tr.pts.take b).drop a, tr.table⟩ := by
+  obtain ⟨s, e, _, _, _, h1, _, h3, _, h, hi⟩ := getitemSlice_spec tr (some (a : Int)) (some (b : Int)) 1 (by omega)
+  have hs := h1 a rfl
+  have he := h3 b rfl
+  have : getitemSlice tr (some (a : Int)) (some (b : Int)) none =
+      getitemSlice tr (some (a : Int)) (some (b : Int)) (some ((1 : Nat) : Int)) := rfl
+  rw [this, h]
+  congr 2
+  apply List.ext_getElem?
+  intro i
+  rw [hi i, List.getElem?_drop, List.getElem?_take, Nat.mul_one]
+  by_cases hlt : a + i < tr.pts.length
+  · have e1 : s + i = a + i := by omega
+    by_cases hb : a + i < b
+    · rw [if_pos (by omega), if_pos hb, e1]
+    · rw [if_neg (by omega), if_neg hb]
+  · have hn : tr.pts[a + i]? = none := List.getElem?_eq_none (by omega)
+    by_cases hb : a + i < b
+    · rw [if_pos hb, hn, if_neg (by omega)]
+    · rw [if_neg hb, if_neg (by omega)]
 
 /-! ## `sortRadix` -/
 
@@ -570,5 +821,60 @@ example : dropLast ⟨[⟨0, 1, [0]⟩, ⟨1, 3, [10]⟩], [("f", 0)]⟩ 3 = ⟨
 example : IsArgsort [3, 1, 3] [1, 2, 0] := by
   refine ⟨by decide, ?_⟩
   simp
+
+/-! ### the feature table: layouts reached through the public interface, and what `+` does with them -/
+
+/-- two observations with the features `f` then `g` created in this order -/
+def exT1 : Track := ⟨[⟨0, 1, [10, 20]⟩, ⟨1, 3, [11, 21]⟩], [("f", 0), ("g", 1)]⟩
+/-- the same names, `f` removed and re-created: the columns are `g`, `f` -/
+def exT2 : Track := ⟨[⟨50, 5, [70, 60]⟩], [("g", 0), ("f", 1)]⟩
+
+/-- the layouts are what `createAnalyticalFeature` / `removeAnalyticalFeature` produce -/
+example : ((createAF ⟨[⟨50, 5, []⟩], []⟩ "f" [0]).bind (fun t => (createAF t "g" [70]).bind (fun t =>
+    (removeAF t "f").bind (fun t => createAF t "f" [60])))) = some exT2 := by decide +kernel
+example : WF exT1.table ∧ WF exT2.table := by
+  refine ⟨⟨by decide, by decide⟩, ⟨by decide, by decide⟩⟩
+/-- every observation reads its own values by name, whatever the column order -/
+example : readAF exT1 "f" 1 = .val 11 ∧ readAF exT2 "f" 0 = .val 60 ∧ readAF exT2 "g" 0 = .val 70 := by decide +kernel
+/-- same SET of names in another order: the sum lists no feature (hypothesis of `concat_names_differ`) -/
+example : exT1.names ≠ exT2.names ∧ (concat exT1 exT2).table = [] := by decide +kernel
+/-- same names in the same order (hypotheses of `concat_carries`): the observations of the right operand read
+their own values in the sum -/
+example : exT1.names = (dropFirst exT1 1).names ∧ readAF (concat exT1 (dropFirst exT1 1)) "g" 2 = .val 21 := by
+  decide +kernel
+/-- why `concat_carries` needs well-formed tables: `__add__` compares the NAMES only; with the same names on other
+columns (a table no sequence of creations / removals produces) an observation of the right operand would read
+another feature's value -/
+example : let t2 : Track := ⟨[⟨50, 5, [70, 60]⟩], [("f", 1), ("g", 0)]⟩
+    exT1.names = t2.names ∧ readAF t2 "f" 0 = .val 60 ∧ readAF (concat exT1 t2) "f" 2 = .val 70 := by decide +kernel
+/-- a slice with bounds from the end and a step: positions 1, 3 of 5 -/
+example : (getitemSlice ⟨[⟨0, 1, []⟩, ⟨1, 2, []⟩, ⟨2, 3, []⟩, ⟨3, 4, []⟩, ⟨4, 5, []⟩], []⟩ (some (-4)) none (some 2)).map
+    (fun t => t.pts.map (·.tag)) = some [1, 3] := by decide +kernel
+/-- the hypotheses of `finalPool_good` are satisfiable: a good pool, a sequence with an insertion -/
+example : let own : Nat → String → Int := fun tag nm => if nm = "f" then 10 + tag else 20 + tag
+    Good own exT1 ∧ OpOk own (.insert 0 7 2 [("f", 17), ("g", 27)]) ∧ OpOk own (.add 0 0) := by
+  refine ⟨⟨⟨by decide, by decide⟩, ?_⟩, ?_, trivial⟩
+  · intro o ho nm hnm
+    simp only [exT1, List.mem_cons, List.not_mem_nil, or_false] at ho
+    simp only [Track.names, exT1, List.map_cons, List.map_nil, List.mem_cons, List.not_mem_nil, or_false] at hnm
+    rcases ho with rfl | rfl <;> rcases hnm with rfl | rfl <;> decide
+  · intro nm v h
+    simp only [lookVal, List.find?_cons, List.find?_nil] at h
+    by_cases h1 : nm = "f"
+    · subst h1; simp at h; simp [← h]
+    · by_cases h2 : nm = "g"
+      · subst h2; simp at h; simp [← h]
+      · have e1 : ("f" == nm) = false := by simp [Ne.symm h1]
+        have e2 : ("g" == nm) = false := by simp [Ne.symm h2]
+        simp [e1, e2] at h
+/-- `sortRadix`: the digits of 2000-01-01 00:00:00.500 are inside their buckets (hypothesis of `sortRadix_spec`) -/
+example : ∀ k, k < 6 → 0 ≤ ([500, 0, 0, 0, 0, 30] : List Int).getD k 0 ∧
+    ([500, 0, 0, 0, 0, 30] : List Int).getD k 0 < (radixBuckets.getD k 0 : Nat) := by decide
+/-- two passes on small buckets (least significant first): the second key decides, the first breaks its ties,
+equal pairs keep their order -/
+example : runPasses [(3, fun i => [2, 0, 2, 1].getD i 0), (2, fun i => [1, 1, 0, 1].getD i 0)] [0, 1, 2, 3] = some [2, 1, 3, 0] := by
+  decide +kernel
+/-- a key outside the buckets (a year after 2069): `IndexError`, as in the code -/
+example : bucketPass 100 (fun _ => 100) [0] = none := by decide +kernel
 
 end TV.C04
